@@ -83,6 +83,7 @@ inductive TyDesc where
   | char (iso : Bool)
   | str (iso : Bool)          -- 2-byte length prefix
   | fixed (iso : Bool)        -- width given by the field's `length` attribute
+  | unknown                   -- (extraction only) a registered type that behaves like none of the above
   deriving Repr, DecidableEq
 
 /-- the DATATYPES table of `soup_app_xml.mustache`, sorted by id -/
